@@ -243,6 +243,7 @@ theorem npInv_getElem? (lt : κ → κ → Bool) (keys : List κ) (p : Nat) (k :
 
 /-! ## dropped entries -/
 
+omit [DecidableEq κ] in
 theorem keptZ_fst (drop : κ → Bool) (keys : List κ) :
     (keptZ drop keys).map (·.1) = keys.filter (fun k => !drop k) := by
   unfold keptZ
@@ -251,12 +252,14 @@ theorem keptZ_fst (drop : κ → Bool) (keys : List κ) :
   rw [h]
   rfl
 
+omit [DecidableEq κ] in
 theorem mem_keptZ (drop : κ → Bool) (keys : List κ) (k : κ) (i : Nat) :
     (k, i) ∈ keptZ drop keys ↔ keys[i]? = some k ∧ drop k = false := by
   unfold keptZ
   rw [List.mem_filter, List.mem_zipIdx_iff_getElem?]
   simp
 
+omit [DecidableEq κ] in
 theorem keptZ_sorted (drop : κ → Bool) (keys : List κ) :
     (keptZ drop keys).Pairwise (fun a b => a.2 < b.2) := by
   unfold keptZ
@@ -265,10 +268,12 @@ theorem keptZ_sorted (drop : κ → Bool) (keys : List κ) :
     rw [List.zipIdx_map_snd]; exact List.pairwise_lt_range' 1
   exact List.pairwise_map.1 h
 
+omit [DecidableEq κ] in
 theorem keptZ_pos_sorted (drop : κ → Bool) (keys : List κ) :
     ((keptZ drop keys).map (·.2)).Pairwise (· < ·) :=
   List.pairwise_map.2 (keptZ_sorted drop keys)
 
+omit [DecidableEq κ] in
 /-- entry `a` of the kept list sits at position `pos[a]` of the flattened input -/
 theorem kept_getElem? (drop : κ → Bool) (keys : List κ) (a : Nat) :
     ((keptZ drop keys).map (·.1))[a]? = (((keptZ drop keys).map (·.2))[a]?).bind (fun i => keys[i]?) := by
